@@ -87,16 +87,20 @@ fn show_frame(f: &Frame) -> String {
 }
 
 pub fn decode(bytes: &[u8]) -> String {
-    let r = catch_unwind(AssertUnwindSafe(|| {
-        let mut src = BytesMut::from(bytes);
-        FrameDecoder {}.decode(&mut src)
-    }));
-    match r {
-        Ok(Ok(Some(f))) => show_frame(&f),
-        Ok(Ok(None)) => "none".into(),
-        Ok(Err(_)) => "err".into(),
-        Err(_) => "PANIC".into(),
-    }
+    let owned = bytes.to_vec();
+    let r = crate::out::guarded(10, move || {
+        let r = catch_unwind(AssertUnwindSafe(|| {
+            let mut src = BytesMut::from(&owned[..]);
+            FrameDecoder {}.decode(&mut src)
+        }));
+        match r {
+            Ok(Ok(Some(f))) => show_frame(&f),
+            Ok(Ok(None)) => "none".into(),
+            Ok(Err(_)) => "err".into(),
+            Err(_) => "PANIC".into(),
+        }
+    });
+    r.unwrap_or_else(|| "SPIN".to_string())
 }
 
 
@@ -141,6 +145,10 @@ fn dec_case(bytes: &[u8], what: &str, out: &mut Outputs) {
     if res == "PANIC" {
         out.violation("c15-frame-decoder-panic", &format!("the frame decoder panics ({})", what), &line);
         out.violation("c04-panic-frame-decoder", &format!("the frame decoder panics ({})", what), &line);
+    }
+    if res == "SPIN" && !out.violations.iter().any(|v| v.0 == "c04-spin") {
+        out.violation("c04-spin", &format!("c04-spin: the frame decoder had not returned after 10 s on a frame of {} bytes ({})", bytes.len(), what), &line);
+        out.violation("c15-frame-decoder-spin", &format!("the frame decoder had not returned after 10 s on a frame of {} bytes ({})", bytes.len(), what), &line);
     }
     out.count(&format!("dec: {}", what));
     if res.starts_with("ok") {
